@@ -79,6 +79,9 @@ def inputs(tier):
                ('LYS', 'MAM', 'MAM'), ('CYS', 'LYS', 'LYS')):
         for lv in (('deep',) if tier == 'quick' else ('mid', 'deep')):
             out.append(dict(src='samelabel', d=corpus.cluster_desc(ks, 'star', 3.0, lv)))
+    # groups whose model pKa comes from the per-residue custom table (pseudo-nucleotides of C01)
+    for res, nn in (('DA', 'N1'), ('DG', 'N7'), ('DC', 'N3')):
+        out.append(dict(src='dna', res=res, n=nn))
     # nothing left to titrate: a disulfide alone
     out.append(dict(src='corpus', d=corpus.pair_desc('CYS', 'CYS', 2.03, 'exposed')))
     if tier == 'thorough':
@@ -92,6 +95,11 @@ def build(inp, seed):
     if inp['src'] == 'samelabel':
         from . import c15
         return c15.build(inp, seed)
+    if inp['src'] == 'dna':
+        from . import c01
+        frag = c01.dna_fragment(inp['res'], inp['n']).translate((10000, 10000, 10000))
+        pep = gen.S(c01.build_window(dict(key='3SGB', chain='I', index=20, oxt=1)))
+        return gen.S(pep.items + ['TER\n'] + frag.translate((9000, 0, 0)).items).translate(gen.seed_offset(seed))
     if inp['src'] == 'repeat':
         one = corpus.build(inp['d'], seed)
         items = []
@@ -172,10 +180,12 @@ def check_sum(rec, tol=1e-9):
     return v
 
 
-def check_text(mol, rec, text, params):
+def check_text(mol, rec, text, params, cname='AVR'):
     v = []
     p = pk.parse_pka(text)
-    groups = mol.conformations['AVR'].groups
+    groups = mol.conformations[cname].groups
+    if cname != 'AVR':
+        groups = [g for g in groups if g.use_in_calculations()]
     hidden = params.remove_penalised_group
     shown = [g for g in groups if not (g.coupled_titrating_group and hidden)]
     # summary
@@ -196,8 +206,8 @@ def check_text(mol, rec, text, params):
         elif abs(srow['pka'] - g.pka_value) > 0.00501 or abs(srow['model'] - g.model_pka) > 0.00501:
             v.append(('summary-value-differs', '%r summary pKa %.2f model %.2f, API %r %r' % (g.label, srow['pka'], srow['model'], g.pka_value, g.model_pka)))
         if trow is None:
-            v.append(('determinant-table-row-missing', 'no determinant-table row for %r (chain %s, chains of AVR %s)' % (
-                g.label, g.atom.chain_id, mol.conformations['AVR'].chains)))
+            v.append(('determinant-table-row-missing', 'no determinant-table row for %r (chain %s, chains of %s %s)' % (
+                g.label, g.atom.chain_id, cname, mol.conformations[cname].chains)))
             continue
         if abs(trow['pka'] - g.pka_value) > 0.00501:
             v.append(('table-pka-differs', '%r table pKa %.2f API %r' % (g.label, trow['pka'], g.pka_value)))
@@ -243,14 +253,24 @@ def run_case(case, ctx, acc):
         if bits != (1, 0, 0):
             jobs.append(('default', (), bits))
             jobs.append(('display-coupled', ('-d',), bits))
+    jobs.append(('custom-model-pkas', (), 'custom'))
     written = {}
     for sname, opts, bits in jobs:
+        if bits == 'custom':     # a parameter file that gives some residue-atom keys a model pKa of their own
+            path = os.path.abspath('cfg_custom.cfg')
+            with open(path, 'w') as fh:
+                fh.write(cfgs[(1, 0, 0)] + '\ncustom_model_pkas ASP-CG 4.00\ncustom_model_pkas LYS-NZ 9.75\ncustom_model_pkas HIS-CG 7.25\ncustom_model_pkas GLU-CD 4.10\n')
+            written[bits] = path
+            bits_t = (1, 0, 0)
         if bits not in written:
             path = os.path.abspath('cfg_%d%d%d.cfg' % bits)
             with open(path, 'w') as fh:
                 fh.write(cfgs[bits])
             written[bits] = path
         o = tuple(opts) + (() if bits == (1, 0, 0) else ('-p', written[bits]))
+        if bits == 'custom':
+            o = tuple(opts) + ('-p', written[bits])
+            bits = (9, 9, 9)
         sub = dict(case, setting=sname, cfg=list(bits))
         if sname == 'blank-chain-selected':
             first = [a.chain for a in s.atoms if a.chain != 'Z'][0]
@@ -265,6 +285,12 @@ def run_case(case, ctx, acc):
         nt = any(any(g['dets'][t] for t in g['dets']) for g in rec['confs']['AVR']['groups'])
         acc.case(nontrivial_key=jhash(sub) if nt else None, outcome='%s/%d%d%d' % ((sname,) + tuple(bits)))
         v = check_sum(rec) + check_text(mol, rec, mol._pka_text, mol.version.parameters)
+        if len(rec['conformations']) > 1 and sname in ('default', 'display-coupled'):
+            # the file the program writes for one single conformation describes that conformation
+            from . import c09
+            for cname in rec['conformations']:
+                v += [(ck + '/single-conformation-file', what) for ck, what in
+                      check_text(mol, rec, c09.conf_text(mol, cname), mol.version.parameters, cname=cname)]
         feats = []
         if any(g['cov_coupled'] for g in rec['confs'][rec['conformations'][0]]['groups']):
             feats.append('covalently-coupled')
